@@ -48,7 +48,7 @@ class HEX(BinFormat):
             if l.HEXcode == StartSegmentAddress:
                 self._entrypoint = (l.cs, l.ip)
             elif l.HEXcode == StartLinearAddress:
-                self.entrypoint = l.eip
+                self._entrypoint = self.entrypoint = l.eip
             self.L.append(l)
         self.__lines = None
         self.__dataio = None
